@@ -6,7 +6,7 @@
 //! A replay regenerates the same stream from (property, tier, seed) and selects the case.
 mod rng;
 mod wr;
-mod c14;
+mod registry;
 
 use std::io::{BufWriter, Write};
 
@@ -47,11 +47,8 @@ fn main() {
     let tier = if args[2] == "thorough" { Tier::Thorough } else { Tier::Quick };
     let seed: u64 = args[3].parse().unwrap_or(0);
     let mut ctx = Ctx { out: &mut out, tier, rng: rng::Rng::new(seed) };
-    match args[1].as_str() {
-        "C14" => c14::run(&mut ctx),
-        p => {
-            eprintln!("unknown property {p}");
-            std::process::exit(2);
-        }
+    if !registry::run(args[1].as_str(), &mut ctx) {
+        eprintln!("unknown property {}", args[1]);
+        std::process::exit(2);
     }
 }
